@@ -281,10 +281,17 @@ def check_gf(mon, rng, crys, chem, sitelist, jn, ctx, GF=None, Nmax=2):
                     pts.append((i, b, dx + dy))
                     break
         for i, j, dx in pts:
-            try:
-                v1, v2 = GF(i, j, dx), GF2(i, j, dx)
-            except Exception as e:
-                mon.check(False, 'C13:GF:call-raises', '%s: %s %s' % (type(e).__name__, e, ctx))
+            r = []
+            for calc in (GF, GF2):
+                try:
+                    r.append(calc(i, j, dx))
+                except Exception as e:
+                    r.append(e)
+            v1, v2 = r
+            if isinstance(v1, Exception) or isinstance(v2, Exception):
+                # a network without transport in some direction makes the original itself refuse: the copy must do the same
+                mon.check(type(v1) == type(v2) and str(v1) == str(v2), 'C13:GF:call-same-outcome', 'G(%d,%d,%s): original %r, copy %r %s' % (i, j, dx.tolist(), v1, v2, ctx))
+                mon.count('gf_call_refused_by_both')
                 break
             mon.check(np.array_equal(v1, v2), 'C13:GF:value-bitwise', lambda: 'G(%d,%d,%s) = %r vs %r %s' % (i, j, dx.tolist(), v1, v2, ctx))
     diffs, missing = structcmp.diff(GF, GF2, 'GF')
